@@ -69,6 +69,14 @@ func init() {
 	act("msgtpl", func(u string) J {
 		return J{"uuid": u, "type": "send_msg", "text": "age=@fields.age secret=@globals.secret role=@parent.results.role"}
 	})
+	// fixed references whose uuid is unknown to the assets while an asset of that name exists (as in a
+	// definition imported from another workspace): the run must not touch what inspection does not list
+	act("gaddx", func(u string) J {
+		return J{"uuid": u, "type": "add_contact_groups", "groups": []any{J{"uuid": world.UUID("group-foreign"), "name": "Group A"}}}
+	})
+	act("labelsx", func(u string) J {
+		return J{"uuid": u, "type": "add_input_labels", "labels": []any{J{"uuid": world.UUID("label-foreign"), "name": "Label A"}}}
+	})
 	act("broadcast", func(u string) J {
 		return J{"uuid": u, "type": "send_broadcast", "text": "hello", "groups": []any{J{"uuid": world.GroupB, "name": "Group B"}, J{"uuid": world.GroupA, "name": "Group A"}}}
 	})
@@ -89,7 +97,7 @@ func init() {
 }
 
 var actionKinds = []string{"A:res13", "A:loc", "A:res", "A:res2", "A:res3", "A:ticket", "A:webhook", "A:resthook", "A:classifier", "A:airtime", "A:gadd", "A:gremove",
-	"A:field", "A:labels", "A:channel", "A:template", "A:msgtpl", "A:broadcast"}
+	"A:field", "A:labels", "A:channel", "A:template", "A:msgtpl", "A:broadcast", "A:gaddx", "A:labelsx"}
 
 // router kinds are rendered here (they carry result names and group references)
 //
@@ -284,21 +292,23 @@ func inspectFlow(sa flows.SessionAssets, uuid assets.FlowUUID) (*inspection, err
 }
 
 // touched extracts (type, identity) pairs of assets an event names.
-func touched(ev map[string]any) [][2]string {
-	var out [][2]string
+func touched(ev map[string]any) [][3]string {
+	var out [][3]string
 	refs := func(t string, v any, idk string) {
 		switch x := v.(type) {
 		case []any:
 			for _, e := range x {
 				if m, ok := e.(map[string]any); ok {
 					if id, ok := m[idk].(string); ok {
-						out = append(out, [2]string{t, id})
+						name, _ := m["name"].(string)
+						out = append(out, [3]string{t, id, name})
 					}
 				}
 			}
 		case map[string]any:
 			if id, ok := x[idk].(string); ok {
-				out = append(out, [2]string{t, id})
+				name, _ := x["name"].(string)
+				out = append(out, [3]string{t, id, name})
 			}
 		}
 	}
@@ -338,7 +348,7 @@ func touched(ev map[string]any) [][2]string {
 						if j := strings.IndexAny(id, "&#"); j >= 0 {
 							id = id[:j]
 						}
-						out = append(out, [2]string{"channel", id})
+						out = append(out, [3]string{"channel", id, ""})
 					}
 				}
 			}
@@ -362,6 +372,35 @@ func namedIn(v any, id string) bool {
 	case map[string]any:
 		for _, e := range x {
 			if namedIn(e, id) {
+				return true
+			}
+		}
+	}
+	return false
+}
+
+// fixedRefNamed reports whether the JSON value holds a fixed reference (an object with a uuid and
+// without a name_match expression) that carries this name: an asset a run reaches through such a
+// reference - whichever of uuid and name the engine resolved it by - is touched by a fixed reference.
+func fixedRefNamed(v any, name string) bool {
+	if name == "" {
+		return false
+	}
+	switch x := v.(type) {
+	case []any:
+		for _, e := range x {
+			if fixedRefNamed(e, name) {
+				return true
+			}
+		}
+	case map[string]any:
+		if _, hasUUID := x["uuid"].(string); hasUUID {
+			if _, expr := x["name_match"]; !expr && x["name"] == name {
+				return true
+			}
+		}
+		for _, e := range x {
+			if fixedRefNamed(e, name) {
 				return true
 			}
 		}
@@ -515,8 +554,8 @@ func judge(c *mc.Ctx, rs *rootSpec, hist []world.Step, influence bool, count boo
 			// (dependencies by reference)
 			node := flowNodeJSON(root, string(r.Flow().UUID()), stepNode[string(e.StepUUID())])
 			for _, tp := range touched(ev) {
-				if node == nil || !namedIn(node, tp[1]) {
-					continue // reached by name, wildcard or expression: outside the clause
+				if node == nil || !(namedIn(node, tp[1]) || fixedRefNamed(node, tp[2])) {
+					continue // reached by wildcard or expression: outside the clause
 				}
 				if count {
 					c.Inc("dependencies_compared")
